@@ -243,6 +243,10 @@ theorem stale_proxy_fails_promptly {c : Ctx} (h : WF c) (ha : c.active = true) (
   · show get { d with log := [] } n = _
     simp only [get, reach_of_stopped h1]
 
+example : ∃ c, c = run (Ctx.init false) [.start false false, .make .task 2 true false true .loop, .tstart 2, .addH .exc] ∧
+    WF c ∧ c.active = true ∧ c.used = true ∧ firstBase c.stopH 0 = none ∧ call c 2 = .ok :=
+  ⟨_, rfl, wf_run (wf_init _) _, by decide, by decide, by decide, by decide⟩
+
 /-- the same for a removed object, until its name is used again -/
 theorem stale_proxy_after_remove {c : Ctx} (h : WF c) {o : Obj} (ho : o ∈ c.mgrs) :
     (step (step c (.remove o.name)).1 (.call o.name)).2 = .exc .delivery := by
@@ -373,6 +377,10 @@ theorem singleton_stuck_forever (p : Proc) (hp : StuckP p) (ops : List POp) (v t
   · have hs2 : StuckP (pstep q .qstop).1 := stuckP_pstep hs _
     rw [qClean, (stuckP_qstart hs2 true t false false []).2] at hc; cases hc
 
+example : StuckP (pstep Proc.init (.qstart true true true false [true])).1 ∧
+    (pstep Proc.init (.qstart true true true false [true])).2 = .exc .os :=
+  ⟨⟨_, rfl, by decide, by decide, by decide⟩, by decide⟩
+
 /-- … and that state is what a failing TCP or UDP bind produces -/
 theorem failed_qstart_is_stuck (t tf uf : Bool) (peers : List Bool) (hf : (t && tf) = true ∨ uf = true) :
     StuckP (pstep Proc.init (.qstart true t tf uf peers)).1 := by
@@ -396,6 +404,16 @@ theorem process_can_start_again_partial (p : Proc) (hp : GoodP p) (t : Bool) : C
       rfl
     rw [this]; exact hstart t
 
+example : GoodP (prun Proc.init [.qstart true true false false [true, false], .op (.make .task 1 true false true .raise),
+      .op (.tstart 1), .op (.addH .exc)]) ∧
+    (prun Proc.init [.qstart true true false false [true, false], .op (.make .task 1 true false true .raise),
+      .op (.tstart 1), .op (.addH .exc)]).single.isSome = true ∧
+    (pstep Proc.init (.qstart true true false false [true, false])).2 = .exc .connRefused := by
+  refine ⟨goodP_prun (Or.inl rfl) _ ?_, by decide, by decide⟩
+  intro o ho
+  simp only [List.mem_cons, List.not_mem_nil, or_false] at ho
+  rcases ho with rfl | rfl | rfl | rfl <;> simp [Harmless]
+
 /-- the good states are closed under everything except the three ways to leave them: a start step failing inside
 `QMI_Context.start()`, stopping the singleton's context behind `qmi`'s back, a non-`Exception` stop handler -/
 theorem good_preserved (p : Proc) (hp : GoodP p) (o : POp) (ho : Harmless o) : GoodP (pstep p o).1 :=
@@ -404,13 +422,7 @@ theorem good_preserved (p : Proc) (hp : GoodP p) (o : POp) (ho : Harmless o) : G
 /-- consequently: after any history of harmless operations, with every other fault allowed -/
 theorem process_can_start_again_after (ops : List POp) (h : ∀ o ∈ ops, Harmless o) (t : Bool) :
     CanStartAgain (prun Proc.init ops) t := by
-  apply process_can_start_again_partial
-  suffices ∀ p, GoodP p → GoodP (prun p ops) from this _ (Or.inl rfl)
-  induction ops with
-  | nil => intro p hp; exact hp
-  | cons o os ih =>
-    intro p hp
-    exact ih (fun x hx => h x (List.mem_cons_of_mem _ hx)) _ (goodP_pstep hp (h o List.mem_cons_self))
+  exact process_can_start_again_partial _ (goodP_prun (Or.inl rfl) ops h) t
 
 
 /-! ## `stop()` racing `make_rpc_object()` from another thread (layer C, all schedules) -/
